@@ -157,8 +157,13 @@ def corpus():
     sl = _m("setLightVector", {"device": "C", "name": "L", "state": "Alert"}, [_p("oneLight", {"name": "l"}, "Busy")], choices=[0], gap="\n")
     ol = _m("oneLight", {"name": "l"}, text="Ok", choices=[0])
     sb = _m("setBLOBVector", {"device": "C", "name": "B", "state": "Ok"}, [_p("oneBLOB", {"name": "b", "size": "3", "format": ".x"}, "QUJD")], choices=[2, 1], gap=" ")
+    # very short messages in the library's own spelling (declaration + newline + element): shorter than the declaration
+    tiny = _m("message", {}, choices=None)
+    tiny2 = _m("pingReply", {"uid": "1"}, choices=None)
+    decl8 = _m("message", {"device": "d"}, choices=[2])  # declaration with encoding="UTF-8"
     short = [
         [gp], [msg], [eb, ping], [gp_f, msg], [ol, ping], [dele, gp], [msg, msg, msg], [ping, eb, msg],
+        [tiny, tiny2, gp], [gp, tiny, tiny], [decl8, tiny2, decl8],
     ]
     medium = [
         [gp, st1], [st2, gp_f], [sw, msg2], [sl, ol, gp], [sb, eb], [dn], [gp, dele, st1, msg], [st1, st2, sw, sl],
@@ -202,7 +207,7 @@ def run(ctx):
     ctx.exhaustive["corpus-cuts"] = {
         "complete": True,
         "n_streams": len(short + medium),
-        "bound": "every 1-cut and char-by-char partition of 16 corpus streams x 3 thresholds; every 2-cut partition of the streams <= 300 chars (<= 150 in quick)"
+        "bound": "every 1-cut and char-by-char partition of 19 corpus streams x 3 thresholds; every 2-cut partition of the streams <= 300 chars (<= 150 in quick)"
         + ("; every 3-cut partition of the streams <= 70 chars" if ctx.tier == "thorough" else ""),
     }
     if ctx.tier == "thorough":
